@@ -1,13 +1,13 @@
 SPECIFICATION MCSpec
 CONSTANTS
-  PcodeNs = {0}
-  Okinds = {0}
+  PcodeNs = {0, 99}
+  Okinds = {0, 1}
   Onodes = {0, 2}
-  BlobIds = {"nil", "one"}
+  BlobIds = {"nil", "empty", "one"}
   MaxItems = 2
   Marker = 9
   NoStamp = {}
-  Reverse = TRUE
+  Reverse = FALSE
 INVARIANTS
   SameType
   CarriedRestored
@@ -15,4 +15,6 @@ INVARIANTS
   ReEncodeIdentical
   ZipLaw
   UnpackLaw
+  HeaderFormsDisjoint
+  RegistryOK
 CHECK_DEADLOCK FALSE
